@@ -350,7 +350,7 @@ func (B *Bounds) checkLoops() []loopResult {
 			var vars []string
 			for _, ins := range li.header.Instrs {
 				if phi, ok := ins.(*ssa.Phi); ok {
-					vars = append(vars, phi.Comment)
+					vars = append(vars, shortType(phi.Type())) // types, not names: a rename must not change the key
 				}
 			}
 			out = append(out, loopResult{fn, fmt.Sprintf("loop #%d over (%s)", i+1, strings.Join(vars, ",")), pat, why, pos})
